@@ -30,6 +30,11 @@ var (
 	OIDPoison  = asn1.ObjectIdentifier{1, 3, 6, 1, 4, 1, 11129, 2, 4, 3}
 	OIDSCTList = asn1.ObjectIdentifier{1, 3, 6, 1, 4, 1, 11129, 2, 4, 2}
 	OIDEKUCT   = asn1.ObjectIdentifier{1, 3, 6, 1, 4, 1, 11129, 2, 4, 4}
+	// RFC 5280 4.2.1.12: the extension and some of its purposes
+	OIDExtKeyUsage = asn1.ObjectIdentifier{2, 5, 29, 37}
+	OIDEKUAny      = asn1.ObjectIdentifier{2, 5, 29, 37, 0}
+	OIDEKUServer   = asn1.ObjectIdentifier{1, 3, 6, 1, 5, 5, 7, 3, 1}
+	OIDEKUClient   = asn1.ObjectIdentifier{1, 3, 6, 1, 5, 5, 7, 3, 2}
 )
 
 // Node is an issued certificate with its key and issuer.
@@ -51,6 +56,9 @@ type Opts struct {
 	NotAfter  time.Time
 	EKUs      []x509.ExtKeyUsage
 	OtherEKUs []asn1.ObjectIdentifier
+	// EKUOIDs writes the extended key usage extension explicitly: these KeyPurposeIds in THIS order (the standard
+	// encoder always writes the purposes it knows before the others; EKUs / OtherEKUs must be empty then).
+	EKUOIDs   []asn1.ObjectIdentifier
 	Poison    string // "", "ok", "noncritical", "nonnull", "nulltrailing", "nulltrailingtlv", "wrongtag", "longformnull", "empty" (the last five critical)
 	Extra     []pkix.Extension
 	Serial    int64
@@ -182,6 +190,17 @@ func template(o Opts) *x509.Certificate {
 	case "":
 	default:
 		panic("pki: unknown poison kind " + o.Poison)
+	}
+	if len(o.EKUOIDs) > 0 {
+		if len(o.EKUs) > 0 || len(o.OtherEKUs) > 0 {
+			panic("pki: EKUOIDs excludes EKUs / OtherEKUs")
+		}
+		// ExtKeyUsageSyntax ::= SEQUENCE SIZE (1..MAX) OF KeyPurposeId (an extension named here replaces the encoder's)
+		v, err := asn1.Marshal(o.EKUOIDs)
+		if err != nil {
+			panic(err)
+		}
+		t.ExtraExtensions = append(t.ExtraExtensions, pkix.Extension{Id: OIDExtKeyUsage, Value: v})
 	}
 	t.ExtraExtensions = append(t.ExtraExtensions, o.Extra...)
 	return t
